@@ -224,8 +224,8 @@ func clip(s string) string {
 
 func main() {
 	mon.Main(mon.Spec{
-		Prop: "C05",
-		Rule: "case = synthetic basic block (3..10 instructions over 2-4 registers + 2 address registers, 2 memory spaces: several writers of one register with readers in between, store/load/store chains, atomics, fences, syscalls, CPU-state changes, jumps to the next instruction, terminating constant/conditional/indirect jumps) and a random walk of 30 move attempts (half adjacent swaps) mixed with block moves; afterwards, for blocks of at most 5 (quick, every 4th case) / 6 (thorough) instructions, every order reachable by accepted adjacent swaps is visited depth-first on the real block and judged; non-trivial = block with >=3 accepted order-changing moves; distinct by block+moves",
+		Prop:        "C05",
+		Rule:        "case = synthetic basic block (3..10 instructions over 2-4 registers + 2 address registers, 2 memory spaces: several writers of one register with readers in between, store/load/store chains, atomics, fences, syscalls, CPU-state changes, jumps to the next instruction, terminating constant/conditional/indirect jumps) and a random walk of 30 move attempts (half adjacent swaps) mixed with block moves; afterwards, for blocks of at most 5 (quick, every 4th case) / 6 (thorough) instructions, every order reachable by accepted adjacent swaps is visited depth-first on the real block and judged; non-trivial = block with >=3 accepted order-changing moves; distinct by block+moves",
 		Explanation: "two oracles after every accepted move: (a) the instructions' effects applied in the new order with the reference IR semantics on 6 pre-states must end in the same registers, memory and control transfer as the original order (an IP write equal to the original fall-through address is a fall-through); (b) the real emulator stepped over the moved code must end in the same state as over a fresh un-moved copy",
 		Assumptions: []string{"refir evaluator", "blocks built through deps.NewCode from synthetic parser.Instruction values"},
 		Cases: func(t string) int {
